@@ -55,6 +55,22 @@ theorem strict_valid_response_exact (ops : List Op) (hv : ValidCodes ops) :
     have hn : validCode n = true := firstStatus_valid false ops hv n hw
     simp [Strict.flushOut, Client.write, Client.writeHeader, Client.seen, hs, hb, hp, hn]
 
+/-- In strict mode the header map is snapshotted only at flush time: every header edit of the handler — also
+those made after its WriteHeader/Write — is part of what the client receives. -/
+theorem strict_headers_delivered (ops : List Op) (hv : ValidCodes ops) :
+    (Strict.run {} ops).flushOut.sent = finalHdr ops := by
+  rw [strict_run_eq]
+  obtain ⟨⟨h1, h2, h3⟩, _, _⟩ := core_foldl_hdrStep ({} : Client) ops
+  unfold finalHdr
+  generalize ops.foldl hdrStep ({} : Client) = c at *
+  have hs : c.status = none := h1
+  have hp : c.panicked = false := h3
+  cases hw : wroteStatus ops with
+  | none => simp [Strict.flushOut, Client.write, Client.writeHeader, hs, hp, validCode_200]
+  | some n =>
+    have hn : validCode n = true := firstStatus_valid false ops hv n hw
+    simp [Strict.flushOut, Client.write, Client.writeHeader, hs, hp, hn]
+
 /-- For handlers that never call Flush the strict path delivers what the raw writer would have received
 (the strict wrapper is not an http.Flusher, so the handler's `w.(http.Flusher)` assertion fails). -/
 theorem strict_exact_vs_direct (ops : List Op) (hv : ValidCodes ops) (hf : ∀ op ∈ ops, op ≠ Op.flush) :
@@ -79,6 +95,13 @@ theorem warn_records (ops : List Op) :
     (Warn.run {} ops).status = (wroteStatus ops).getD 0 ∧ (Warn.run {} ops).buf = written ops := by
   obtain ⟨_, h2, h3⟩ := warn_run_record {} ops
   simp [h2, h3]
+
+/-- In non-strict mode the bytes handed to response validation are exactly the bytes the client received
+(handlers with acceptable status codes). -/
+theorem warn_validates_delivered_body (ops : List Op) (hv : ValidCodes ops) :
+    (Warn.run {} ops).buf = (Warn.run {} ops).client.body := by
+  rw [warn_is_transparent, (warn_records ops).2, (runDirect_status_body {} ops rfl hv).2]
+  simp
 
 /-! ## Validator.Middleware -/
 
